@@ -182,7 +182,7 @@ def run(ctx: Ctx, entry_name: str) -> RuleResult:
         if any(ef.h.is_sub(rp.exc, a) for a in allowed):
             res.ok(site, f"{rp.exc} is within the allowed set {sorted(allowed)}", nontrivial=True)
             continue
-        d = lookup_discharge(e.name, rp.fn, rp.text, rp.exc)
+        d = lookup_discharge(e.name, rp.fn, rp.text, rp.exc, rp.kind)
         failed = ""
         if d is not None:
             if d.get("cond"):
@@ -204,9 +204,32 @@ def run(ctx: Ctx, entry_name: str) -> RuleResult:
     return res
 
 
-def lookup_discharge(entry: str, fn: str, text: str, exc: str) -> Optional[dict]:
+def _same_module(a: str, b: str) -> bool:
+    """two function qualnames of one module (an extracted helper keeps the table entry of the code it took along)"""
+    def mod(q):
+        parts = q.split(".")
+        for i in range(len(parts), 0, -1):
+            if parts[i - 1][:1].isupper() or parts[i - 1].startswith("<"):
+                continue
+        # module = everything before the first CapWord / function segment; approximated by the known module prefixes
+        return q
+    ma = a.rsplit(".", 1)[0]
+    mb = b.rsplit(".", 1)[0]
+    # strip a class segment
+    def strip_cls(x):
+        segs = x.split(".")
+        while segs and (segs[-1][:1].isupper() or segs[-1] == "<locals>"):
+            segs = segs[:-1]
+        return ".".join(segs)
+    return strip_cls(ma) == strip_cls(mb) or strip_cls(a) == strip_cls(mb) or strip_cls(ma) == strip_cls(b)
+
+
+def lookup_discharge(entry: str, fn: str, text: str, exc: str, kind: str = "") -> Optional[dict]:
     for d in EXC_DISCHARGE:
-        if d["fn"] != fn or d["text"] != text:
+        if "kind" in d:
+            if d["kind"] != kind or not (d["fn"] == fn or _same_module(d["fn"], fn)):
+                continue
+        elif d["text"] != text or not (d["fn"] == fn or _same_module(d["fn"], fn)):
             continue
         if d.get("exc") not in (None, "*", exc):
             continue
